@@ -65,6 +65,29 @@ pub extern "Rust" fn curve25519_dalek_verif_pick_backend(compiled: u8) -> u8 {
     ans
 }
 
+// ------------------------------------------------------------------ batch-coefficient seam (adaptive adversary)
+
+thread_local! {
+    static LAST_BATCH_ZS: RefCell<Vec<[u8; 32]>> = const { RefCell::new(Vec::new()) };
+}
+
+/// Called through curve25519_dalek::verif_hooks::observe_scalars (ed25519-dalek's verify_batch reports its
+/// coefficients there when built with --cfg curve25519_dalek_verif).
+#[no_mangle]
+pub extern "Rust" fn curve25519_dalek_verif_observe_scalars(tag: &[u8], zs: &[curve25519_dalek::Scalar]) {
+    if tag == b"ed25519-batch-coefficients" {
+        LAST_BATCH_ZS.with(|v| {
+            let mut v = v.borrow_mut();
+            v.clear();
+            v.extend(zs.iter().map(|z| z.to_bytes()));
+        });
+    }
+}
+
+pub fn last_batch_coefficients() -> Vec<[u8; 32]> {
+    LAST_BATCH_ZS.with(|v| v.borrow().clone())
+}
+
 // ------------------------------------------------------------------ RNG seam
 
 /// Hands out the plan's byte stream cyclically and records what it handed out.
